@@ -169,7 +169,7 @@ type scanner struct {
 }
 
 func (s *scanner) setPaging(query ast.Query) {
-	if query.GetSkip() == nil {
+	if query.GetSkip() == nil || *query.GetSkip() < 0 {
 		query.SetSkip(0)
 	}
 	s.targetOffset = *query.GetSkip()
@@ -208,7 +208,10 @@ func (scanner *memSortingScanner[T]) Scan(store *ObjectStore[T], query ast.Query
 	// Longer term, if we're looking for better performance, we could make a version of llrb which takes a comparator
 	// function instead of putting the comparison on the elements, so we don't need to store a context with each row
 	results := &llrb.Tree{}
-	maxResults := scanner.targetOffset + scanner.targetLimit
+	maxResults := int64(math.MaxInt64)
+	if scanner.targetLimit <= math.MaxInt64-scanner.targetOffset {
+		maxResults = scanner.targetOffset + scanner.targetLimit
+	}
 	for cursor.IsValid() {
 		rowCursor.current = cursor.Current()
 		cursor.Next()
